@@ -1,7 +1,8 @@
 """C17 -- action outcomes are classified exactly and output is captured intact   (model M5, DESIGN §5 C17)
 
 (T) lean/DoitModel/Props/C17.lean: classify_py, py_exec, classify_cmd (+_status, _signal), cmd_exec, task_execute,
-    task_values_lookup, restore_nested (+_any, restore_exec, forest_well_nested), live_rule; counterexamples
+    task_values_lookup, restore_nested (+_any, restore_exec, forest_well_nested), restore_nested_live (the machine
+    with the Writer's live copy, + forest_well_nested_live), live_rule; counterexamples
     overlap_counterexample(_min) (F-C17a, open) and pinned_kwargs_counterexample (F-C17b, fixed).
 (K) the real PythonAction / CmdAction / Task.execute of $VERIF_REPO are run on generated cases (harness/actlib.py)
     and every observable is compared with the Lean model through doitdrv.
@@ -41,15 +42,15 @@ META = {
     'level_text': 'Machine-checked: classification of every return category / return code (all of Int), the closed '
                   'form of the Task.execute loop for every action list, and -- by induction over well-nested step '
                   'lists of any depth and length -- that nested or disjoint python-action executions leave the '
-                  'stdout cell holding the original stream and give every action exactly its own writes in order. '
+                  'stdout cell holding the original stream and give every action exactly its own writes in order, '
+                  'also with the live copy of Writer (forwarding into the enclosing action and the original stream). '
                   'Overlapping executions (threads) provably break this (decide-checked counterexample = the open '
                   'finding F-C17a).  The model is tied to doit/action.py and doit/task.py on every run by executing '
                   'the real classes on generated return values, exit statuses 0..255, signals, byte outputs, '
                   'verbosities, io.capture settings, multi-action tasks, nested executions and forced thread '
                   'interleavings, and diffing every observable against the Lean functions.',
     'level_note': 'Trusted: Lean kernel (axioms propext/Classical.choice/Quot.sound only); the Python harness and '
-                  'doitdrv; subprocess/pipes/reader threads and bytes.decode are exercised, not modelled; the copy a '
-                  'Writer forwards to the live stream is outside the stream machine (checked by a Python predicate). '
+                  'doitdrv; subprocess/pipes/reader threads and bytes.decode are exercised, not modelled. '
                   'Statement-silent behaviour is modelled as the code has it and said so in the theorems: a '
                   'BaseException leaves execute() unclassified, a returned TaskError instance is an error, a process '
                   'killed by a signal is `failed`.  Monitor: classification/task/capture clauses via the Lean '
@@ -163,7 +164,9 @@ def requests_for(case):
         acts = [py_req(a) if a['t'] == 'py' else cmd_req(a, cap) for a in case['actions']]
         return [{'model': 'act', 'op': 'task', 'actions': acts}]
     if k == 'nested':
-        return [{'model': 'act', 'op': 'stream', 'forest': case['forest']}]
+        return [{'model': 'act', 'op': 'stream', 'forest': case['forest']},
+                {'model': 'act', 'op': 'streamfwd', 'forest': fwd_forest(case, 'o')},
+                {'model': 'act', 'op': 'streamfwd', 'forest': fwd_forest(case, 'e')}]
     if k == 'overlap':
         return [{'model': 'act', 'op': 'stream', 'evs': actlib.overlap_evs(case)}]
     raise ValueError(k)
@@ -210,6 +213,25 @@ def evaluate_runner(case, drv):
         return {'hang': str(ex)}, [], [('hang', 'P', str(ex))]
     m = drv.ask({'model': 'act', 'op': 'stream', 'evs': actrun.runner_evs(case, obs['order'])})
     return obs, [m], judge_runner(case, obs, m)
+
+
+def fwd_forest(case, chan):
+    """the forest with the per-execution flag "a live stream is handed over on this channel" (verbosity)"""
+    verb = {int(k): v for k, v in case.get('verb', {}).items()}
+
+    def on(a):
+        v = verb.get(a, 0)
+        return (v not in (0, 1)) if chan == 'o' else (v != 0)
+
+    def conv(items):
+        out = []
+        for it in items:
+            if it[0] == 'x':
+                out.append(['x', it[1], on(it[1]), conv(it[2])])
+            else:
+                out.append(it)
+        return out
+    return conv(case['forest'])
 
 
 RUNNERS = {'py': actlib.run_py, 'cmd': actlib.run_cmd, 'task': actlib.run_task, 'nested': actlib.run_nested,
@@ -284,6 +306,12 @@ def judge(case, obs, model):
             cmp('cell-not-restored', 'P', rec[1:], [True, True])
         cmp('cell-model', 'K', m['cell'], 'orig')
         fwd, orig = actlib.predicted_forwarding(case)
+        for chan, name, mf in (('o', 'out', model[1]), ('e', 'err', model[2])):
+            # (K) the machine with the live copy: every buffer and the original stream, token for token
+            cmp('fwd-cell', 'K', mf['cell'], 'orig')
+            for a, mo in mf['out'].items():
+                cmp('fwd-model-out', 'K', obs[name].get(a), mo)
+            cmp('fwd-model-orig', 'K', obs['O' if chan == 'o' else 'E'], mf['origLog'])
         for chan, name in (('o', 'out'), ('e', 'err')):
             for a, spec in m['spec'].items():
                 got = obs[name].get(a)
@@ -1074,12 +1102,14 @@ def run(ctx):
     for name, c in common.load_corpus('C17'):
         corpus.append(c['case'] if 'case' in c else c)
         ctx.count('corpus')
+    corpus_runner = [c for c in corpus if c['kind'] == 'runner']
+    corpus = [c for c in corpus if c['kind'] != 'runner']
     st = process_batch(corpus) if corpus else None
     if st is not None:
         st.merge_into(ctx)
     cases = build_cases(ctx, ctx.boost)
     run_cases(ctx, cases)
-    run_runner_cases(ctx, ctx.boost)
+    run_runner_cases(ctx, ctx.boost, corpus_runner)
     ctx.extra['exhaustive_small_scope'] = {
         'py': 'every representative x io.capture x verbosity (+direct, kwargs-raise, stream-swapping callables)',
         'cmd': 'exit statuses 0..255, 9 signals x capture, capture x verbosity x save_out grid, 256 KiB outputs',
@@ -1111,10 +1141,10 @@ FIXED_RUNNER = [
 ]
 
 
-def run_runner_cases(ctx, scale):
+def run_runner_cases(ctx, scale, extra=()):
     """whole `doit run`s in this process (the process runner cannot be started from a pool worker)"""
     st = WorkerStats()
-    cases = [copy.deepcopy(c) for c in FIXED_RUNNER]
+    cases = [copy.deepcopy(c) for c in extra] + [copy.deepcopy(c) for c in FIXED_RUNNER]
     for _ in range((10 if ctx.tier == 'quick' else 150) * scale):
         cases.append(gen_runner(random.Random(ctx.rng.getrandbits(64))))
     with common.LeanDriver() as drv:
@@ -1136,7 +1166,7 @@ def search(ctx):
 
 
 def replay(ctx, data):
-    w = data.get('witness') or {}
+    w = data.get('witness') or data          # a replay file, or a corpus seed ({'why':…, 'case':…})
     case = w.get('case')
     if not case:
         print('nothing to replay (no failing input was found): %s' % data.get('note'))
@@ -1151,6 +1181,13 @@ def replay(ctx, data):
     if not probs:
         print('  no problem: implementation == model == statement on this case')
     pv = [p for p in probs if p[1] == 'P']
+    if pv and case['kind'] == 'cmd' and case.get('buffering') and obs and 'out' in obs:
+        ob, eb = actlib.stream_bytes(case)
+        if sig_buffering({'case': case, 'failed_keys': sorted(set(p[0] for p in pv)),
+                          'observed_is_chunkwise_decode':
+                              obs['out'] == actlib.chunkwise_decode(ob, case['buffering'])
+                              and obs['err'] == actlib.chunkwise_decode(eb, case['buffering'])}):
+            print('  (matches the open known finding cmd-buffering-splits-multibyte, F-C17c)')
     if pv and case['kind'] in ('overlap', 'runner') and sig_overlap({'case': case, 'impl_equals_model': not [p for p in probs if p[1] == 'K'],
                            'failed_keys': sorted(set(p[0] for p in pv))}):
         print('  (matches the open known finding stdout-overlap-threads, F-C17a)')
